@@ -151,3 +151,19 @@ contract(HC + 'HandoverClient.recv_octets', 'C06',
              decreases='len(self.socket.inp) - self.socket.pos',
              havoc={'self.socket.pos': Int(0, None), 'octets': 'bytearray(self.socket.inp[0:self.socket.pos])',
                     'timeout': OneOf(None, Int(-100, 100)), 'started': Int(0, None)})})
+
+# Fragments are sized by the connection's send MIU (the MiuSocket/PolledSocket models above assume the link then
+# carries every fragment it accepted).  What makes that true is the link layer collecting outbound PDUs against the
+# *send* MIU - the peer's receive limit - and every dequeue on the way down handing over an accepted I PDU that
+# fits; these C10 contracts are therefore obligations of C06 as well.
+from . import c10_miu as _c10   # noqa
+import copy as _copy
+from pyvc.contracts import REGISTRY as _REG
+for _c in list(_REG):
+    if _c.prop == 'C10' and not _c.expect_fail and (
+            _c.name in ('C10/collect', 'C10/DataLinkConnection.send', 'C10/llc.connect')
+            or _c.name.startswith('C10/ServiceAccessPoint.dequeue')):
+        _c2 = _copy.copy(_c)
+        _c2.prop = 'C06'
+        _c2.name = 'C06/link.' + _c.name.split('/', 1)[1]
+        _REG.append(_c2)
